@@ -328,6 +328,10 @@ func (r *Runner) matchObj(j *JObj, b, n string, o *MObj, where string) string {
 	} else if j.Md5Hash != o.MD5() {
 		return fmt.Sprintf("%s: md5Hash %q, want %q", where, j.Md5Hash, o.MD5())
 	}
+	if !o.Composite && j.ComponentCount != 0 {
+		// only compose makes composite objects; being used as a SOURCE of a compose must not turn an object into one
+		return fmt.Sprintf("%s: componentCount %d on an object that was never composed", where, j.ComponentCount)
+	}
 	if o.CTSet && j.ContentType != o.CT {
 		return fmt.Sprintf("%s: contentType %q, want %q", where, j.ContentType, o.CT)
 	}
